@@ -501,7 +501,7 @@ Fixpoint axes_shape (lenf : amount -> nat -> nat) (amts : list amount) (sh : lis
 Fixpoint axes_check (okf : amount -> nat -> res unit) (amts : list amount) (sh : list nat) : res unit :=
   match amts, sh with
   | m :: ms, n :: s => _ <- okf m n ;; axes_check okf ms s
-  | _ :: _, [] => Unspec     (* more amounts than axes: not documented *)
+  | _ :: _, [] => Err        (* "a list to take along multiple axes": there is no axis for the extra amount *)
   | [], _ => Ok tt end.
 Fixpoint axes_data (lenf : amount -> nat -> nat)
     (rowf : amount -> list elem -> list (list elem) -> list (list elem))
@@ -667,14 +667,21 @@ Definition p_reshape (fill : option elem) (sc : bool) (amts : list amount) (a : 
 
 (* keep, defs.rs:1758-1805 *)
 Definition p_keep (fill : option elem) (sc : bool) (amts : list amount) (a : arr) : res arr :=
-  if existsb (fun m => match m with AInt z => (amt_limit <? z)%Z | _ => false end) amts then Unspec else
+  if existsb (fun m => match m with AInt z => (amt_limit <? (if sc then Z.abs z else z))%Z | _ => false end) amts then Unspec else
   match ash a with
   | [] => Unspec
   | n :: s =>
     let rs := chunk (prodn s) n (adata a) in
     if sc then
       match amts with
-      | [AInt z] => Ok (of_drows (aty a) s (flat_map (fun r => repeat r (Z.to_nat z)) rs))
+      | [AInt z] =>
+          (* "Negative numbers are treated like 0s" (defs.rs:1767) is said of, and shown with, a LIST of
+             counts.  A negative SCALAR count keeps |count| copies of every row and reverses the
+             rows: this is not in the doc comment; the source is the repository's own test
+             tests/dyadic.ua:164 (`▽ ¯0.5 [1_2 3_4 5_6 7_8]` = [5_6 1_2]), i.e. intended behaviour
+             (an earlier version of this reference read the sentence as covering scalars: false alarm C08-F3). *)
+          let rs' := flat_map (fun r => repeat r (Z.to_nat (Z.abs z))) rs in
+          Ok (of_drows (aty a) s (if (z <? 0)%Z then rev rs' else rs'))
       | _ => Unspec end            (* non-integer scalar counts: "at regular intervals" *)
     else
       if existsb (fun m => match m with AInt _ => false | _ => true end) amts then
